@@ -472,6 +472,9 @@ class Forcing(BaseForce):
         nextstep = steps[i + 1]
 
         self.fields["u"], self.fields["v"] = self._read_velocity(prestep)
+        # Other forcing, read before the next velocity frame may switch file
+        for name in self.extra_forcing:
+            self.fields[name] = self._read_field(name, prestep)
         self.fields["u_new"], self.fields["v_new"] = self._read_velocity(nextstep)
         self.fields["dU"] = (self.fields["u_new"] - self.fields["u"]) / stepdiff0
         self.fields["dV"] = (self.fields["v_new"] - self.fields["v"]) / stepdiff0
@@ -483,9 +486,6 @@ class Forcing(BaseForce):
         # Interpolate to time step = -1
         self.fields["u"] = self.fields["u"] - (prestep + 1) * self.fields["dU"]
         self.fields["v"] = self.fields["v"] - (prestep + 1) * self.fields["dV"]
-        # Other forcing
-        for name in self.extra_forcing:
-            self.fields[name] = self._read_field(name, prestep)
 
         self.steps = steps
         # self.files = files
@@ -518,17 +518,14 @@ class Forcing(BaseForce):
             # Read other forcing variables with no time interpolation
             for name in self.extra_forcing:
                 self.fields[name] = self._read_field(name, step)
-            # self.force_particles(X, Y)
-        else:
-            if step - 1 in self.steps:  # Need new fields
-                i = self.steps.index(step - 1)
+            # Need new fields for the interval up to the next forcing frame
+            i = self.steps.index(step)
+            if i + 1 < len(self.steps):
                 nextstep = self.steps[i + 1]
                 stepdiff = self.stepdiff[i]
                 self.fields["u_new"], self.fields["v_new"] = self._read_velocity(
                     nextstep
                 )
-                # for name in self.extra_forcing:
-                #    self[name + "new"] = self._read_field(name, nextstep)
                 if interpolate_velocity_in_time:
                     self.fields["dU"] = (
                         self.fields["u_new"] - self.fields["u"]
@@ -536,17 +533,11 @@ class Forcing(BaseForce):
                     self.fields["dV"] = (
                         self.fields["v_new"] - self.fields["v"]
                     ) / stepdiff
-                # if interpolate_extra_forcing_in_time:
-                #    for name in self.extra_forcing:
-                #        self["d" + name] = (self[name + "new"] - self[name]) / stepdiff
-
-            # "Ordinary" time step (including self.steps+1)
+        else:
+            # "Ordinary" time step
             if interpolate_velocity_in_time:
                 self.fields["u"] += self.fields["dU"]
                 self.fields["v"] += self.fields["dV"]
-            # if interpolate_extra_forcing_in_time:
-            #    for name in self.extra_forcing:
-            #        self[name] += self["d" + name]
 
         # Update forcing values at particles
         # print("force_particles")
